@@ -181,6 +181,18 @@ func (f *c17Folder) fold(s *gen.Stream, depth int) {
 			f.stats["excluded:alias_value_ends_in_escaped_blank"]++
 			continue
 		}
+		if strings.HasSuffix(value, "\\ ") || strings.HasSuffix(value, "\\\t") {
+			// the value ends in an escaped blank: whether the next word is then
+			// examined is read differently (dash: no, bash and go.sh: yes), so
+			// such a value is only used where no plain word follows
+			if j < len(s.Toks) {
+				if _, ok := plainName(s.Toks[j]); ok {
+					f.stats["skipped:escaped_blank_before_a_plain_word"]++
+					continue
+				}
+			}
+			f.stats["value_ends_in_escaped_blank"]++
+		}
 		// the alias name: fresh, or the command's own name (self-reference)
 		an := f.fresh()
 		inRun := 0
